@@ -1,6 +1,6 @@
 From Coq Require Import String.
 From Mux Require Import Model.Bytes Model.Wire.
-From Mux Require Suites.S20 Suites.SRT Suites.SMatch.
+From Mux Require Suites.S20 Suites.SRT Suites.SMatch Suites.SGroup.
 
 Definition rt_ids : list bytes :=
   map bs ["RT"; "C01"; "C02"; "C03"; "C04"; "C05"; "C08"; "C09"; "C10"; "C11"; "C12"; "C17"; "C18"; "C19"]%string.
@@ -9,4 +9,5 @@ Definition run_suite (id : bytes) (ls : list line) : list line :=
   if beqb id (bs "C20") then run_case S20.suite20 ls
   else if mem id rt_ids then run_case (SRT.suite_rt id) ls
   else if mem id (map bs ["MX"; "C14"; "C15"]%string) then run_case (SMatch.suite_mx id) ls
+  else if mem id (map bs ["GR"; "C13"; "C16"]%string) then run_case (SGroup.suite_gr id) ls
   else [[bs "X"; bs "0"; bs "unknown-suite"]].
